@@ -128,20 +128,32 @@ struct Expect {
 }
 
 /// Text of an importer module: imports every name in `names` and calls its function.
+fn module_text(f: &str) -> String {
+    let camel = f[1..].replace('_', "");
+    format!("pub fn {f}() {{\n  1\n}}\n\npub type T{camel} {{\n  C{camel}\n}}\n")
+}
+
+/// The importer uses every module three ways: qualified call `m.f()`, unqualified function
+/// `import m.{f as u0}` ... `u0()`, unqualified constructor `import m.{Con as K0}` ... `K0`.
 fn importer_text(own_fn: &str, names: &[(String, String)]) -> (String, Vec<(String, [u32; 2])>) {
     let mut s = String::new();
-    for (m, _) in names {
+    for (k, (m, f)) in names.iter().enumerate() {
+        let con = format!("C{}", f[1..].replace('_', ""));
         s += &format!("import {m}\n");
+        s += &format!("import {m}.{{{f} as u{k}}}\n");
+        s += &format!("import {m}.{{{con}}}\n");
     }
     s += &format!("\npub fn {own_fn}() {{\n");
     let mut positions = Vec::new();
-    let base_line = names.len() as u32 + 2;
+    let base_line = 3 * names.len() as u32 + 2;
     for (k, (m, f)) in names.iter().enumerate() {
         let acc = m.rsplit('/').next().unwrap();
-        let line = format!("  {acc}.{f}()\n");
-        let col = 2 + acc.len() as u32 + 1 + 1; // inside the function name
-        positions.push((m.clone(), [base_line + k as u32, col]));
-        s += &line;
+        s += &format!("  {acc}.{f}()\n");
+        positions.push((m.clone(), [base_line + 3 * k as u32, 2 + acc.len() as u32 + 1 + 1]));
+        s += &format!("  u{k}()\n");
+        positions.push((m.clone(), [base_line + 3 * k as u32 + 1, 3]));
+        s += &format!("  C{}\n", f[1..].replace('_', ""));
+        positions.push((m.clone(), [base_line + 3 * k as u32 + 2, 3]));
     }
     s += "  1\n}\n";
     (s, positions)
@@ -173,7 +185,7 @@ pub fn gen_session(seed: u64, run: u64, _thorough: bool) -> Session {
         };
         put(&mut tree, &mut late, format!("{}/gleam.toml", p.dir), toml_of(&pkgs, pi));
         for (_, rel, f) in &p.modules {
-            put(&mut tree, &mut late, format!("{}/{rel}", p.dir), format!("pub fn {f}() {{\n  1\n}}\n"));
+            put(&mut tree, &mut late, format!("{}/{rel}", p.dir), module_text(f));
         }
         // one importer module per package, importing every module name that exists anywhere
         let visible: Vec<usize> = std::iter::once(pi).chain(p.deps.iter().copied()).collect();
@@ -212,7 +224,8 @@ pub fn gen_session(seed: u64, run: u64, _thorough: bool) -> Session {
         let rel = format!("{}/src/imp_{}.gleam", p.dir, p.name);
         put(&mut tree, &mut late, rel.clone(), text.clone());
         importer_files.push((pi, rel.clone(), text));
-        for ((m, pos), (_, target, amb)) in positions.iter().zip(local_expect) {
+        let local_expect3: Vec<_> = local_expect.iter().flat_map(|e| [e.clone(), e.clone(), e.clone()]).collect();
+        for ((m, pos), (_, target, amb)) in positions.iter().zip(local_expect3) {
             let id = next_id;
             next_id += 1;
             request_ops.push(PlannedOp::new(Op::Request {
@@ -237,7 +250,7 @@ pub fn gen_session(seed: u64, run: u64, _thorough: bool) -> Session {
     for p in pkgs.iter().skip(1) {
         if let Some((_, rel, f)) = p.modules.first() {
             if rng.chance(1, 2) {
-                order.push((format!("{}/{rel}", p.dir), format!("pub fn {f}() {{\n  1\n}}\n")));
+                order.push((format!("{}/{rel}", p.dir), module_text(f)));
             }
         }
     }
